@@ -129,15 +129,23 @@ func worldName(id b6.FeatureID) string {
 func featLit(f string) string { return "/" + featID(f).String() }
 
 // expression builds the b6 expression for an evaluate request.
+// tagKey: model tags are searchable ("#k") except the tag "p", a plain key that the search index does not know.
+func tagKey(t string) string {
+	if t == "p" {
+		return "p"
+	}
+	return "#" + t
+}
+
 func expression(r request) string {
-	tagv := fmt.Sprintf("(tag \"#%s\" \"y\")", r.T)
+	tagv := fmt.Sprintf("(tag \"%s\" \"y\")", tagKey(r.T))
 	switch r.K {
 	case "ro":
 		return fmt.Sprintf("count (find [#%s])", r.C)
 	case "add":
-		return fmt.Sprintf("add-tag %s #%s=y", featLit(r.F), r.T)
+		return fmt.Sprintf("add-tag %s %s", featLit(r.F), tagv)
 	case "rm":
-		return fmt.Sprintf("remove-tag %s \"#%s\"", featLit(r.F), r.T)
+		return fmt.Sprintf("remove-tag %s \"%s\"", featLit(r.F), tagKey(r.T))
 	case "addif":
 		return fmt.Sprintf("add-tags (map (find [#%s]) {f -> tag \"#%s\" \"y\"})", r.C, r.T)
 	case "rmif":
@@ -145,7 +153,7 @@ func expression(r request) string {
 	case "add2":
 		return fmt.Sprintf("add-tags (collection (pair %s %s) (pair %s %s))", featLit(r.F), tagv, featLit(r.G), tagv)
 	case "merge":
-		return fmt.Sprintf("merge-changes (collection (pair 0 (add-tag %s #%s=y)) (pair 1 (add-tag %s #%s=y)))", featLit(r.F), r.T, featLit(r.G), r.T)
+		return fmt.Sprintf("merge-changes (collection (pair 0 (add-tag %s %s)) (pair 1 (add-tag %s %s)))", featLit(r.F), tagv, featLit(r.G), tagv)
 	case "addpt":
 		if strings.HasPrefix(r.F, "c") {
 			return fmt.Sprintf("add-collection %s (collection (pair 0 %s)) (collection (pair 1 2))", featLit(r.F), tagv)
@@ -155,7 +163,7 @@ func expression(r request) string {
 		// a path with a single point fails validation
 		return fmt.Sprintf("add-point (ll 51.5 -0.1) /path/verif/%d (collection (pair 0 %s))", num(r.F), tagv)
 	case "awc":
-		return fmt.Sprintf("add-world-with-change /%s (add-tag %s #%s=y)", worldID(r.X).String(), featLit(r.F), r.T)
+		return fmt.Sprintf("add-world-with-change /%s (add-tag %s %s)", worldID(r.X).String(), featLit(r.F), tagv)
 	}
 	return ""
 }
@@ -526,6 +534,8 @@ func (s *system) observe() (string, map[string]interface{}, []string) {
 					if strings.HasPrefix(t.Key, "#") {
 						tags = append(tags, t.Key[1:])
 						byTag[t.Key[1:]] = append(byTag[t.Key[1:]], f)
+					} else if t.Key == "p" {
+						tags = append(tags, "p")
 					}
 				}
 			}
@@ -534,6 +544,9 @@ func (s *system) observe() (string, map[string]interface{}, []string) {
 		}
 		final[w] = map[string]interface{}{"e": true, "c": content}
 		for _, t := range s.c.Tags {
+			if t == "p" {
+				continue // not indexed
+			}
 			var found []string
 			it := obj.FindFeatures(b6.Keyed{Key: "#" + t})
 			for it.Next() {
